@@ -15,7 +15,7 @@ EXTENDS TlsAdmitRules
 CONSTANT ClientAuthFix
 VARIABLES cfg, st, cred, conn
 vars == <<cfg, st, cred, conn>>
-NoPeer == [class |-> "-", send |-> "-", ver |-> "-"]
+NoPeer == [class |-> "-", send |-> "-", ver |-> "-", sni |-> "-"]
 
 TypeOK == /\ cfg \in Cfgs /\ st \in {"new", "disabled", "reject", "ready"}
           /\ cred \in Creds(cfg.role) \cup {NoPeer}
